@@ -12,9 +12,9 @@ PROPS["C08"] = {
                  "buffer capacities, judged by an independent strict MessagePack decoder; thorough adds all 2^32 float32 values",
     "rule": "cases = nil, booleans; every integer within 2 of +-2^k (k = 0..64) in unsigned and signed storage; named float/double boundary values; "
             "2 signs x every exponent x ~50/~107 mantissa patterns for float32/double (one case per sign-exponent block; thorough: all 2^32 float32 values in blocks of 65536); "
-            "strings and keys of 0 1 30..33 254..257 65534 65535 bytes (65536 65537 in a STRING_LENGTH_SIZE=4 build); arrays and maps of 0 1 14..17 children, "
+            "strings and keys of 0 1 30..33 254..257 65534 65535 bytes (65536 65537 2^24 in a STRING_LENGTH_SIZE=4 build); arrays and maps of 0 1 14..17 children, "
             "15..17 x 15..17 nested in 4 shapes, arrays of 255 256 65534 65535 (thorough 65536 65537) elements, maps of 65535 (thorough 65534..65537) members; "
-            "MsgPackBinary / MsgPackExtension set through the API with payloads of 0 1 2 3 4 5 8 9 15 16 17 255 256 257 65000 (65535 65536 65537 in the 4-byte-length build) "
+            "MsgPackBinary / MsgPackExtension set through the API with payloads of 0 1 2 3 4 5 8 9 15 16 17 255 256 257 65000 (65535 65536 65537 2^24-1 2^24 2^24+1 in the 4-byte-length build) "
             "bytes and all 256 extension types at size 1; all trees with <= 3 (thorough 4) nodes over a reduced alphabet of these; chains of depth up to 12 (thorough 100). "
             "Destinations and capacities as C02 (every capacity 0..length+2 for outputs up to 300 bytes). "
             "non-trivial = container, string longer than 31, integer outside the fixint range, float, bin/ext; distinct by case key",
